@@ -143,17 +143,17 @@ func firstDiff(a, b []byte) int {
 	return n
 }
 
-// lenMix draws a length in [0,max]: smallPct % uniform in 0..96, half of the
-// rest next to a multiple of one of the bounds (k*b + d, d in -2..2), the
-// remainder uniform over the whole range.  gen.Len leans towards short inputs;
-// the multi-block paths of this group need more long ones.
+// lenMix draws a length in [0,max]: about half next to a multiple of one of
+// the bounds (k*b + d, d in -2..2), then uniform over the whole range, and
+// smallPct % uniform in 0..96.  (rapid's integer draws lean towards small
+// values, so the class that should be most frequent is listed first; gen.Len
+// leans towards short inputs and the multi-block paths of this group need more
+// long ones.)
 func lenMix(t *rapid.T, label string, max, smallPct int, bounds ...int) (int, string) {
 	mode := rapid.IntRange(0, 99).Draw(t, label+".mode")
 	rest := 100 - smallPct
 	switch {
-	case mode < smallPct:
-		return rapid.IntRange(0, min(96, max)).Draw(t, label), "len=small"
-	case mode < smallPct+rest*3/5:
+	case mode < rest*3/5:
 		b := rapid.SampledFrom(bounds).Draw(t, label+".b")
 		k := rapid.IntRange(0, max/b).Draw(t, label+".k")
 		d := rapid.IntRange(-2, 2).Draw(t, label+".d")
@@ -165,7 +165,9 @@ func lenMix(t *rapid.T, label string, max, smallPct int, bounds ...int) (int, st
 			n = max
 		}
 		return n, "len=boundary"
-	default:
+	case mode < rest:
 		return rapid.IntRange(0, max).Draw(t, label), "len=uniform"
+	default:
+		return rapid.IntRange(0, min(96, max)).Draw(t, label), "len=small"
 	}
 }
